@@ -495,6 +495,25 @@ def fixed_cases(thorough: bool = False):
                         c = young(kind, stream, name, now, "now", 0)
                         c["query"] = q
                         out.append(c)
+    # loop grid: multi-period streams whose Period durations / offsets are not whole seconds x every live
+    # template x time shift buffers that span two and more passes of the loop
+    for name, mft in W.manifests().items():
+        if "live" not in mft["modes"]:
+            continue
+        for i, stream in enumerate(W.FRACTIONAL_MPS):
+            for j, q in enumerate(([["depth", "120"]], [["depth", "300"], ["start", "epoch"]],
+                                   [["depth", "90"], ["start", "today"], ["timeline", "1"]], [["depth", "600"]])):
+                if not thorough and (i + j) % 2:
+                    continue
+                out.append({"kind": "multi", "manifest": name, "mode": "live", "stream": stream,
+                            "query": [list(x) for x in q], "rawquery": False, "host": "localhost",
+                            "now": ["2024-05-06T07:08:09Z", "2025-11-30T23:59:59.750000Z"][j % 2],
+                            "stored": {}, "hostile": []})
+        for stream in W.FRACTIONAL_MPS:
+            if "vod" in mft["modes"]:
+                out.append({"kind": "multi", "manifest": name, "mode": "vod", "stream": stream, "query": [],
+                            "rawquery": False, "host": "localhost", "now": "2024-05-06T07:08:09Z",
+                            "stored": {}, "hostile": []})
     # track-layout grid: streams whose audio / video / text files share or spread track ids and codec
     # families x every template x mode x track-selection options (what the grouping code looks at)
     k = 0
